@@ -125,6 +125,9 @@ def run(ck):
                '[Y,La,Lu]', '[Ca,Sr,Ba,Ra]']
     heavy_t = ['[Pd]', '[Pt]', 'Cl[Pt](Cl)(N)N', 'C[Hg]C', '[Cd+2].[Zn+2]', 'C[Sn](C)(C)C', 'C[Pb](C)(C)C', '[Ba+2].[La+3]', '[Xe].[Rn]', 'I.Br.Cl', '[At]', '[Os].[Ru].[Fe]', '[Cs+].[Fr+].[Na+].[K+]',
                'C[Ge](C)(C)C', '[Te].[Po].[Se].S', '[Au].[Ag].[Cu]', '[Lu+3].[Y+3]', '[Ra+2].[Sr+2].[Ca+2]']
+    # two-letter symbols whose letters spell other elements (Cl - C, Br - B, Si - S / I, Sn - S / N, Co - C / O, Na - N, ...)
+    heavy_q += ['[Cl,Br]', '[Si,P]', '[Sn,Na]', '[Co,Ni]', '[Cl,Br;D1]', '[Cs,Hf]', '[Nb,No]', '[Os,Pu]', '[Hf,Sc]']
+    heavy_t += ['BrCCB(C)C', 'CCCl', 'C[Si](C)(C)I', 'CSC', 'N[Na]', 'C=O.[Co]', 'NS', 'FB(F)F.[U].P', 'O=[Os](=O)(=O)=O', '[H][H].F.[Sc+3].S', 'C[Sn](C)(C)C.NI']
     for q in heavy_q:
         for t in heavy_t:
             cases.append({'key': f'{q}|{t}', 'q': q, 't': t, 'thiele': False, 'filter': False, 'scope': False, 'rs': rnd.randrange(1 << 30)})
